@@ -55,9 +55,10 @@ def run(ctx):
     if ctx.thorough:
         ctx.model_check("store/MCFreezer", "store/MCFreezerMixed", timeout=T, name="MCFreezer-2tables-mixed-groups", workers=6, coverage=True)
         ctx.model_check("store/MCFreezer", "store/MCFreezer1T", timeout=T, name="MCFreezer-1table-deeper", workers=6)
-        ctx.model_check("store/MCFreezer", "store/MCFreezer2", timeout=T, name="MCFreezer-2tables-3items", workers=8)
+        # (store/MCFreezer2.cfg, two tables x three items, 54.7M states / ~11 min on an idle machine, held in the final
+        #  sweep; it is left out of the tier to keep it within ~25 minutes)
     # R: call histories sampled by TLC from the model (simulation mode) drive the real freezer first
-    sim = ctx.tlc("store/MCFreezer", "store/MCFreezerSim", simulate="num=%d" % ctx.pick(1, 12), depth=400, workers=2,
+    sim = ctx.tlc("store/MCFreezer", "store/MCFreezerSim", simulate="num=%d" % ctx.pick(1, 6), depth=400, workers=2,
                   timeout=T, tags=("MBT",), deadlock=False, name="MCFreezer-simulate")
     if sim.error or sim.timeout:
         raise InfraError("TLC simulation failed: %s" % (sim.error or "timeout"))
@@ -70,7 +71,7 @@ def run(ctx):
     hp = os.path.join(ctx.scratch, "tlc-histories.json")
     with open(hp, "w") as f:
         json.dump(hists, f)
-    ctx.cov["behaviours_replayed"] += len(hists) * (3 if ctx.thorough else 1)
+    ctx.cov["behaviours_replayed"] += len(hists) * (2 if ctx.thorough else 1)
     # XF + V: real histories, crash images, validated by the trace specification
     seen = {}
     cfgs = [("g2", "store/FreezerTraceG2"), ("mixed", "store/FreezerTraceMixed")]
@@ -79,10 +80,10 @@ def run(ctx):
     for cfg, tcfg in cfgs:
         tp = os.path.join(ctx.scratch, "trace-%s.ndjson" % cfg)
         args = ["-mode", "xf", "-cfg", cfg, "-unsynced-tail", "-trace", tp, "-dir", os.path.join(ctx.scratch, "fz-" + cfg),
-                "-n", ctx.pick(2, 12), "-steps", ctx.pick(9, 14), "-images", ctx.pick(5, 14)]
+                "-n", ctx.pick(2, 8), "-steps", ctx.pick(9, 14), "-images", ctx.pick(5, 8)]
         if ctx.thorough:
             args.append("-every-length")
-        if ctx.thorough or cfg == "g2":
+        if cfg == "g2" or (ctx.thorough and cfg == "mixed"):
             args += ["-scripts", hp]                      # the TLC-sampled histories (quick: on one configuration)
         s, _ = ctx.drive(drv, args, name="c24-xf-" + cfg, timeout=T)
         ok, consumed, total, r = ctx.validate("store/FreezerTrace", tp, cfg=tcfg, ntraces=s["traces"], timeout=T,
